@@ -354,6 +354,11 @@ def harnesses():
 # ----------------------------------------------------------------------------------------------------------
 # State.notify_var_get
 # ----------------------------------------------------------------------------------------------------------
+def replay_notify_var_get(wj):
+    from replay.native import run_native
+    return run_native("c04_notify_var_get", wj, timeout=120)
+
+
 def h_notify_var_get(eng):
     from .tables import StateTable
     it = Interpreter(eng)
@@ -388,10 +393,12 @@ def h_notify_var_get(eng):
     if len(keys) == 1:
         # nothing filled in: only allowed when the watched name is the changed variable itself, or is a name the rules
         # do not cover (exists but was never notified)
-        eng.oblige(f"{U}/post.unfilled-only-when-no-rule-applies", z3.Or(
+        ob = eng.oblige(f"{U}/post.unfilled-only-when-no-rule-applies", z3.Or(
             n.t == var.t,
             z3.And(z3.Not(in_last(n.t)), z3.Not(z3.And(nparts(n.t) == 3, in_last(ent))),
-                   z3.Or(nparts(n.t) < 2, nparts(n.t) > 4, exists(n.t), nparts(n.t) == 4))))
+                   z3.Or(nparts(n.t) < 2, nparts(n.t) > 4, exists(n.t)))))
+        if ob.status == "refuted":
+            ob.witness = {"signature": "notify_var_get:unfilled", "what": "unfilled"}
     else:
         val = list(v.values())[1]
         eng.oblige(f"{U}/post.filled-name-is-the-watched-name", len(keys) == 2 and keys[1] is n)
@@ -632,7 +639,7 @@ def h_legacy_step(n_ident, n_any):
 
 
 def harnesses2():
-    hs = [Harness("State.notify_var_get", h_notify_var_get, units=[(ST_PY, "State.notify_var_get")])]
+    hs = [Harness("State.notify_var_get", h_notify_var_get, units=[(ST_PY, "State.notify_var_get")], replay=replay_notify_var_get)]
     for ni, na in ((1, 0), (0, 1), (1, 1)):
         hs.append(Harness(f"legacy.step[ident={ni},any={na}]", with_chain_witness(h_legacy_step(ni, na)), units=[(T_PY, "TrigInfo.trigger_watch")], replay=replay_chain, max_paths=30000))
     return hs
